@@ -1026,11 +1026,15 @@ class H2Connection:
         :type stream_id: ``int``
         :param error_code: (optional) The error code to use to reset the
             stream. Defaults to :data:`ErrorCodes.NO_ERROR
-            <h2.errors.ErrorCodes.NO_ERROR>`.
+            <h2.errors.ErrorCodes.NO_ERROR>`. Must fit in 32 bits, otherwise
+            ``ValueError`` is raised.
         :type error_code: ``int``
         :returns: Nothing
         """
         self.config.logger.debug("Reset stream ID %d", stream_id)
+        if not (0 <= error_code <= 0xFFFFFFFF):
+            raise ValueError("error_code must be a 32-bit unsigned integer")
+
         self.state_machine.process_input(ConnectionInputs.SEND_RST_STREAM)
         stream = self._get_stream_by_id(stream_id)
         frames = stream.reset_stream(error_code)
@@ -1046,14 +1050,22 @@ class H2Connection:
            Added ``additional_data`` and ``last_stream_id`` arguments.
 
         :param error_code: (optional) The error code to send in the GOAWAY
-            frame.
+            frame. Must fit in 32 bits, otherwise ``ValueError`` is raised.
         :param additional_data: (optional) Additional debug data indicating
             a reason for closing the connection. Must be a bytestring.
         :param last_stream_id: (optional) The last stream which was processed
-            by the sender. Defaults to ``highest_inbound_stream_id``.
+            by the sender. Defaults to ``highest_inbound_stream_id``. Must be
+            between 0 and 2**31-1, otherwise ``ValueError`` is raised.
         :returns: Nothing
         """
         self.config.logger.debug("Close connection")
+        if not (0 <= error_code <= 0xFFFFFFFF):
+            raise ValueError("error_code must be a 32-bit unsigned integer")
+
+        if last_stream_id is not None and not (
+                0 <= last_stream_id <= self.HIGHEST_ALLOWED_STREAM_ID):
+            raise ValueError("last_stream_id must be a valid stream ID or 0")
+
         self.state_machine.process_input(ConnectionInputs.SEND_GOAWAY)
 
         # Additional_data must be bytes
